@@ -862,6 +862,26 @@ def c_prelude(tu):
             nx = [m for m in n.kids[0].walk() if m.k == "MemberExpr" and m.n == "next"]
             if nx:
                 guard = n
+    named = {}
+    if guard is None:
+        # the comparison of the links kept in a local (`same_next = ...; if (same_next)`)
+        for n in fn.walk():
+            lhs = rhs = None
+            if n.k == "BinaryOperator" and n.v == "=":
+                l = strip(n.kids[0])
+                if l is not None and l.k == "DeclRefExpr":
+                    lhs, rhs = l.n, n.kids[1]
+            elif n.k == "VarDecl" and n.kids and n.kids[-1].k != "Absent":
+                lhs, rhs = n.n, n.kids[-1]
+            if lhs and any(m.k == "MemberExpr" and m.n == "next" for m in rhs.walk()):
+                named[lhs] = rhs
+        for n in fn.walk():
+            if n.k == "IfStmt":
+                c = strip(n.kids[0])
+                while c is not None and c.k == "UnaryOperator" and c.v == "!":
+                    c = strip(c.kids[0])
+                if c is not None and c.k == "DeclRefExpr" and c.n in named:
+                    guard = n
     if guard is None:
         raise AnalysisError("anchor vanished: successor-link guard in _bucket__p_resolveConflict")
     # The guard is evaluated as a boolean function of the three pointer
@@ -875,6 +895,8 @@ def c_prelude(tu):
 
     def beval(e, cls):
         e = strip(e)
+        if e.k == "DeclRefExpr" and e.n in named:
+            return beval(named[e.n], cls)
         if e.k == "ParenExpr":
             return beval(e.kids[0], cls)
         if e.k == "UnaryOperator" and e.v == "!":
@@ -1113,6 +1135,18 @@ def _is_tuple(s):
     return isinstance(s, tuple) and s[0] == "t"
 
 
+def _raises_typeerror_null(tu, c):
+    """the repository function sets TypeError and returns NULL on every path"""
+    if not c or c[0] != "fn" or c[1] not in tu.funcs or tu.body(c[1]) is None:
+        return False
+    fn = tu.funcs[c[1]]
+    sets = [n for n in fn.walk() if n.k == "CallExpr" and callee(n)[0] == "fn"
+            and callee(n)[1] in ("PyErr_SetString", "PyErr_Format") and len(n.kids) > 1
+            and "PyExc_TypeError" in text(n.kids[1])]
+    rets = [n for n in fn.walk() if n.k == "ReturnStmt"]
+    return bool(sets) and bool(rets) and all(r.kids and const_int(r.kids[0]) == 0 for r in rets)
+
+
 def c_unwrap(tu):
     fn = tu.func("get_bucket_state")
     body = tu.body("get_bucket_state")
@@ -1229,6 +1263,8 @@ def c_unwrap(tu):
                 r = strip(s.kids[0])
                 if r.k == "CallExpr" and callee(r) == ("fn", "merge_error"):
                     res = "refuse %s" % const_int(r.kids[4])
+                elif r.k == "CallExpr" and _raises_typeerror_null(tu, callee(r)):
+                    res = "TypeError"           # a helper that sets TypeError and returns NULL
                 elif const_int(r) == 0:
                     res = "TypeError" if seterr[0] else "NULL without error"
                 else:
@@ -1236,8 +1272,10 @@ def c_unwrap(tu):
                     res = "return None" if v is None else ("return inner" if v == ("t", ["x"]) else "return %r" % (v,))
             elif s.k == "CallExpr" or (s.k not in ("DeclStmt", "NullStmt") and not s.k.endswith("Stmt")):
                 s0 = strip(s)
-                if s0.k == "CallExpr" and callee(s0) == ("fn", "PyErr_SetString"):
+                if s0.k == "CallExpr" and callee(s0) in (("fn", "PyErr_SetString"), ("fn", "PyErr_Format")):
                     seterr[0] = "TypeError" in text(s0.kids[1])
+                elif s0.k == "CallExpr" and _raises_typeerror_null(tu, callee(s0)):
+                    seterr[0] = True
                 else:
                     ev(s0)
         seterr = [False]
